@@ -1,5 +1,6 @@
 import LLRP.Model.Header
 import LLRP.Proofs.Bytes
+import LLRP.Proofs.HeaderGen
 import LLRP.Gen.MsgTables
 import LLRP.Gen.Schema
 /-!
@@ -144,6 +145,35 @@ theorem hdr_decode_encode (b0 b1 l0 l1 l2 l3 i0 i1 i2 i3 : UInt8) (rest : Bytes)
     refine ⟨?_, hb _ _ ?_, hb _ _ ?_, hb _ _ ?_, hb _ _ ?_, hb _ _ ?_, hb _ _ ?_, hb _ _ ?_, hb _ _ ?_, hb _ _ ?_⟩
     · apply UInt8.toNat_inj.mp; simp only [byte_toNat]; omega
     all_goals omega
+
+/-! ## the source itself: go2lean's translation of the four hand-written header functions equals the model
+
+`Gen.llrp_Header_UnmarshalBinary`, `Gen.llrp_Header_MarshalBinary`, `Gen.llrp_Header_WriteTo` and
+`Gen.llrp_Client_writeHeader` are regenerated from messages.go / reader.go on every run; these theorems carry every
+statement above (and C05's use of `writeHeader`) over to the translated source. -/
+
+theorem src_unmarshal (b : Bytes) :
+    Gen.llrp_Header_UnmarshalBinary (ints b) = (Header.unmarshal b).map fieldsOf := gen_unmarshal_eq b
+
+theorem src_marshal (h : Header) (hr : h.InRange) :
+    Gen.llrp_Header_MarshalBinary h.payloadLen h.id h.typ h.version = intsOpt h.marshal := gen_marshal_eq h hr
+
+theorem src_writeTo (h : Header) (hr : h.InRange) :
+    Gen.llrp_Header_WriteTo h.payloadLen h.id h.typ h.version = intsOpt h.marshal := gen_writeTo_eq h hr
+
+theorem src_writeHeader (h : Header) (hr : h.InRange) :
+    Gen.llrp_Client_writeHeader h.payloadLen h.id h.typ h.version = some (ints (writeHeader h)) :=
+  gen_writeHeader_eq h hr
+
+/-- round trip stated purely about the translated source: what `MarshalBinary` produces, `UnmarshalBinary` reads back -/
+theorem src_round_trip (h : Header) (hv : h.Valid) (b : Bytes)
+    (hm : Gen.llrp_Header_MarshalBinary h.payloadLen h.id h.typ h.version = some (ints b)) (hb : h.marshal = some b) :
+    Gen.llrp_Header_UnmarshalBinary (ints b) = some (fieldsOf h) := by
+  have := hdr_encode_decode h hv
+  rw [hb] at this
+  simp only [Option.bind_some] at this
+  rw [src_unmarshal, this]
+  rfl
 
 /-! ## non-vacuity -/
 example : (⟨1, 63, 17, 0xDEADBEEF⟩ : Header).Valid := by decide
